@@ -217,9 +217,11 @@ def lowerRef (decls : List Decl) : Nat → List (String × IR) → Defs → Stri
         | "Set", [v] => .ok (.set v) d
         | "Record", [k, v] =>
           -- resolve a reference key; split the key union into literal keys (required properties) and the rest
-          let key := match k with
-            | .ref r => (match d.get r with | some (some s) => s | _ => k)
-            | _ => k
+          let rec resolveKey (fuel : Nat) (key : IR) : IR :=
+            match fuel, key with
+            | f+1, .ref r => (match d.get r with | some (some s) => resolveKey f s | _ => key)
+            | _, key => key
+          let key := resolveKey 50 k
           (match feExtractUnion d 50 key with
             | some parts =>
               let consts := parts.filterMap singleStringConst
@@ -240,15 +242,8 @@ def lowerRef (decls : List Decl) : Nat → List (String × IR) → Defs → Stri
         | "Pick", [t, ks] =>
           (match extractObject d 50 t with
             | some vs =>
-              let keys : Option (List String) := match singleStringConst ks with
-                | some s => some [s]
-                | none => match ks with
-                  | .anyOf rms => rms.mapM fun rm => match singleStringConst rm with
-                    | some s => some s
-                    | none => match rm with
-                      | .ref r => (match d.get r with | some (some s) => singleStringConst s | _ => none)
-                      | _ => none
-                  | _ => none
+              let keys : Option (List String) :=
+                (feExtractUnion d 50 ks).bind (fun parts => parts.mapM singleStringConst)
               (match keys with
                 | some keys => .ok (.object (vs.filter fun p => keys.contains p.1) none) d
                 | none => .diag "PickNeedsString" d)
